@@ -71,7 +71,8 @@ P = {
        "coefficient); solutions(): first yield optimal, every yield feasible for the original rows with its own objective, within gap, no yielded "
        "active set contains an earlier one (no duplicates), non-decreasing order, completeness up to supersets, limit, termination (fuel never "
        "exhausted); the reference solver Brute is sound, optimal, and satisfies the contract. " + TIE + "The real lpinterface (CBC via OR-Tools) "
-       "is run on generated models (binaries, error terms, helpers, near ties at the precision thresholds) and on every LP recorded from the three "
+       "is run on generated models (binaries, error terms, helpers, near ties at the precision thresholds; also general integer variables, which "
+       "the model's `binaries` excludes and the reference solver does not handle: predicate + LP-row tie only) and on every LP recorded from the three "
        "stages, and compared with Brute/Enum evaluated in Coq, exhaustive evaluation, and independent solvers (SCIP, HiGHS).",
   note=TRUST + "CBC/SCIP/HiGHS (OR-Tools 9.15) are oracles: the contract hypothesis C05_contract is validated, not proved, for them, and is KNOWN TO FAIL for CBC on two families (open findings: 1e-5 cutoff resolution; non-optimal 'optimal' answers after exclusion cuts on CYP2D6 copy-number models). Exact rationals in the model, 1e-6 tolerance on the float side away from thresholds.",
   tech="Coq proof over executable Gallina model (enumeration loop, helpers, reference solver) + differential correspondence against CBC, brute force and independent solvers"),
